@@ -10,7 +10,7 @@ SeqsOf(A, n) == IF n = 0 THEN {<<>>} ELSE LET s == SeqsOf(A, n - 1) IN s \cup {A
 Msgs == {<<>>, <<1>>, <<2>>, <<1, 3>>, <<1, 4, 3>>, <<5>>}     \* none | plain | contains ": " | two lines | blank line inside | non-ASCII
 Init == \/ /\ kind = "text" /\ tb \in [frames : SeqsOf(FrameSet, 1) \cup SeqsOf(FrameSmall, MaxFrames), etype : {1, 2}, msg : Msgs]
            /\ prog = <<>> /\ exc = 0
-        \/ /\ kind = "chain" /\ prog \in SeqsOf(1..7, MaxDepth) \ {<<>>} /\ exc \in 1..4
+        \/ /\ kind = "chain" /\ prog \in SeqsOf(1..7, MaxDepth) \ {<<>>} /\ exc \in 1..8
            /\ tb = [frames |-> <<>>, etype |-> 1, msg |-> <<>>]
 Next == UNCHANGED vars
 Spec == Init /\ [][Next]_vars
